@@ -5,6 +5,6 @@ id=$1; k0=$2; shift 2
 cd "$(dirname "$0")/.."
 for k in 1 2; do
   n=$id-m$((k0+k-1))
-  python3 tools/validate_seed.py /var/tmp/wt2out/$id/m$k $n $id
+  python3 tools/validate_seed.py ${R2SRC:-/var/tmp/wt2out}/$id/m$k $n $id
   tools/mut.sh seeded/$n/patch.diff "$@" | grep "^=="
 done
